@@ -1,7 +1,9 @@
 (** Extraction of the reader model and of the specification functions used as oracle.  ExtrOcamlBasic only. *)
 From Coq Require Import Extraction ExtrOcamlBasic.
-From XV Require Import C04.Spec04 C04.Model04 C04.Inst04.
+From XV Require Import C04.Spec04 C04.Spec04t C04.Model04 C04.Model04b C04.Inst04.
 Extraction Language OCaml.
 Extraction "../ocaml/C04/gen_c04.ml"
-  mk_reader mk_cfg real_cfg do_op run_ops deliver get_next get_name get_ncname get_qname
-  spec_decode spec_chars eol_norm name_prefix kCharBufSize kRawBufSize lowWaterDefault line col ccur.
+  mk_reader mk_cfg real_cfg with_nelcol is_plain do_op do_xop run_ops deliver get_next get_name get_ncname get_qname
+  spec_decode spec_chars eol_norm name_prefix kCharBufSize kRawBufSize lowWaterDefault line col ccur
+  tk_get tk_get_if_not tk_skipped_char tk_skip_if_quote tk_skipped_space tk_run tk_skipped_string starts_with tk_peek
+  tk_name tk_ncname tk_qname plain_run upto_take.
